@@ -21,7 +21,11 @@
 //	                             second one sharing registry, storage and trust flag (sys=2).  Its
 //	                             observation comes first; "notrun" when the opener was never reached.
 //	C:<proto>:<holder>:<value>   ComputeLink
-//	G:<form>:<link binary hex>   form l=Load r=LoadRaw p=LoadPlusRaw f=Fill
+//	G:<form>:<link binary hex>[:<holder>]   form l=Load r=LoadRaw p=LoadPlusRaw f=Fill; with a holder:
+//	                             into that holder's (schema-typed) node prototype instead of Prototype.Any
+//
+// holder: basic | bindmap | bindlist | tpoint | tjoin | trename | tkunion | gmsg3 (the t*/g* holders
+// are schema-typed nodes whose representation differs from the type-level view: lib/link_holders.go)
 //
 // proto = version.codec(hex).mhtype(hex).mhlength
 // tables (","-separated): what the real hashers / JSON codecs give on the byte strings and values
@@ -46,7 +50,6 @@ import (
 	"github.com/ipld/go-ipld-prime/datamodel"
 	"github.com/ipld/go-ipld-prime/linking"
 	cidlink "github.com/ipld/go-ipld-prime/linking/cid"
-	"github.com/ipld/go-ipld-prime/node/basicnode"
 	"github.com/ipld/go-ipld-prime/storage/memstore"
 )
 
@@ -70,6 +73,9 @@ func (o *op) text() string {
 		return fmt.Sprintf("W:%s:%s:%s:%s", o.proto.Spec(), o.holder, o.sched, o.val.Text())
 	case 'N':
 		return fmt.Sprintf("N:%d:%s", o.sys, o.inner.text())
+	}
+	if o.holder != "" {
+		return fmt.Sprintf("G:%c:%s:%s", o.form, lib.Hex(o.link), o.holder)
 	}
 	return fmt.Sprintf("G:%c:%s", o.form, lib.Hex(o.link))
 }
@@ -122,7 +128,11 @@ func parseOp(s string) (*op, error) {
 		}
 		return &op{kind: f[0][0], proto: p, holder: f[2], val: v}, nil
 	case "G":
-		return &op{kind: 'G', form: f[1][0], link: lib.UnHex(f[2])}, nil
+		o := &op{kind: 'G', form: f[1][0], link: lib.UnHex(f[2])}
+		if len(f) == 4 {
+			o.holder = f[3]
+		}
+		return o, nil
 	}
 	return nil, fmt.Errorf("bad op %q", s)
 }
@@ -225,7 +235,7 @@ func (rn *runner) exec(o *op, lsys *linking.LinkSystem) string {
 	w, tab := rn.w, rn.tab
 	switch o.kind {
 	case 'S', 'C', 'W':
-		n, err := lib.BuildHolder(o.holder, o.val)
+		n, err := lib.LkBuildHolder(o.holder, o.val)
 		if err != nil {
 			return "builderr/-"
 		}
@@ -285,13 +295,14 @@ func (rn *runner) exec(o *op, lsys *linking.LinkSystem) string {
 		var n datamodel.Node
 		var raw []byte
 		rawReturned := false
+		np := lib.LkProtoFor(o.holder)
 		err = lib.Safely(func() error {
 			var e error
 			switch o.form {
 			case 'l':
-				n, e = lsys.Load(linking.LinkContext{}, l, basicnode.Prototype.Any)
+				n, e = lsys.Load(linking.LinkContext{}, l, np)
 			case 'f':
-				nb := basicnode.Prototype.Any.NewBuilder()
+				nb := np.NewBuilder()
 				e = lsys.Fill(linking.LinkContext{}, l, nb)
 				if e == nil {
 					n = nb.Build()
@@ -300,7 +311,7 @@ func (rn *runner) exec(o *op, lsys *linking.LinkSystem) string {
 				raw, e = lsys.LoadRaw(linking.LinkContext{}, l)
 				rawReturned = e == nil || len(raw) > 0
 			case 'p':
-				n, raw, e = lsys.LoadPlusRaw(linking.LinkContext{}, l, basicnode.Prototype.Any)
+				n, raw, e = lsys.LoadPlusRaw(linking.LinkContext{}, l, np)
 				rawReturned = e == nil || len(raw) > 0
 			}
 			return e
@@ -542,7 +553,61 @@ func genHistory(r *lib.Rng, maxOps int) (string, bool, *lib.LkReg, []*op) {
 		ops = append(ops, n)
 		live.do(n)
 	}
+	// typed: a schema-typed node (representation != type-level view) given to ComputeLink and Store,
+	// the same value in basicnode, and loads of the stored link into the typed prototype and into
+	// Prototype.Any.  Full-length digests only: a colliding block of another shape would not fit the type.
+	typed := func() {
+		var cands []uint64
+		for _, c := range codes {
+			impl, ok := reg.Enc[c]
+			d, okd := reg.Dec[c]
+			if ok && okd && impl == d && impl != lib.LkRaw && c != lib.LkDagPb {
+				cands = append(cands, c)
+			}
+		}
+		if len(cands) == 0 {
+			return
+		}
+		code := cands[r.Intn(len(cands))]
+		h := lib.LkTypedHolders[r.Intn(len(lib.LkTypedHolders))]
+		v := r.LkTypedVal(h)
+		mht := []uint64{0x12, 0x13, 0x16}[r.Intn(3)]
+		p := lib.LkProto{Version: 1, Codec: code, MhType: mht, MhLen: -1}
+		seq := []*op{
+			{kind: 'C', proto: p, holder: h, val: v},
+			{kind: 'S', proto: p, holder: h, val: v},
+			{kind: 'C', proto: p, holder: "basic", val: v},
+		}
+		if r.Bool() {
+			seq[0], seq[1] = seq[1], seq[0]
+		}
+		if r.Intn(3) == 0 {
+			seq[2].kind = 'S'
+		}
+		for _, o := range seq {
+			ops = append(ops, o)
+			live.do(o)
+		}
+		if len(live.links) == 0 {
+			return
+		}
+		l := live.links[len(live.links)-1]
+		for _, f := range "lfp" {
+			if r.Intn(3) != 0 {
+				o := &op{kind: 'G', form: byte(f), link: l, holder: h}
+				ops = append(ops, o)
+				live.do(o)
+			}
+		}
+		o := &op{kind: 'G', form: "lrpf"[r.Intn(4)], link: l}
+		ops = append(ops, o)
+		live.do(o)
+	}
 	for len(ops) < nops {
+		if r.Intn(14) == 0 {
+			typed()
+			continue
+		}
 		switch k := r.Intn(20); {
 		case k < 11 || len(live.links) == 0: // store / compute
 			var codec uint64
@@ -775,6 +840,31 @@ func main() {
 				}
 			}
 			emit(out, next("r"), kind, false, custom, ops)
+		}
+	}
+
+	// schema-typed holders: every holder x codec, typed ComputeLink / Store / basicnode ComputeLink,
+	// loads into the typed prototype (Load, Fill, LoadPlusRaw) and into Prototype.Any
+	crng := lib.NewRng(7)
+	for _, h := range lib.LkTypedHolders {
+		for _, codec := range []uint64{lib.LkDagCbor, lib.LkDagJson, lib.LkCbor, lib.LkJson} {
+			for rep := 0; rep < 2; rep++ {
+				v := crng.LkTypedVal(h)
+				p := lib.LkProto{Version: 1, Codec: codec, MhType: 0x12, MhLen: 32}
+				ops := []*op{
+					{kind: 'C', proto: p, holder: h, val: v},
+					{kind: 'S', proto: p, holder: h, val: v},
+					{kind: 'C', proto: p, holder: "basic", val: v},
+				}
+				_, _, ls := runHistory("mem", false, G, ops)
+				for _, l := range uniq(ls) {
+					for _, f := range "lfp" {
+						ops = append(ops, &op{kind: 'G', form: byte(f), link: l, holder: h})
+					}
+					ops = append(ops, &op{kind: 'G', form: 'l', link: l}, &op{kind: 'G', form: 'r', link: l})
+				}
+				emit(out, next("t"), []string{"mem", "cid"}[rep], false, G, ops)
+			}
 		}
 	}
 
